@@ -345,6 +345,10 @@ def minmax_cases(ctx):
         scalar_f = k % 5 == 0
         f0 = frac_values(prng, n)
         f1 = f0 if scalar_f else frac_values(prng, n)
+        if k < 12:      # fixed cells: zero fractions in every position, scalar / pair, whole-range fractions
+            scalar_f, f0, f1 = [(True, 0.0, 0.0), (False, 0.1, 0.0), (False, 0.0, 0.1), (False, 0.0, 0.0), (True, 1.0, 1.0),
+                                (False, 1.0, 0.0), (False, 0.0, 1.0), (True, 0.2, 0.2), (False, 0.3, 0.05), (False, 1.0, 1.0),
+                                (False, 0.5, 0.5), (False, 0.6, 0.7)][k]
         cf = f0 if scalar_f else (f0, f1)
         po = prng.choice([1, (1, 3), (2, 2), 0])
         call = {'kind': 'minmax', 'n': n, 'unsorted': unsorted, 'default_weights': default_w,
@@ -1121,6 +1125,10 @@ def rc_lit(v, conv):
     return f'(RC4 {conv(v[0])} {conv(v[1])} {conv(v[2])} {conv(v[3])})'
 
 
+ZERO_PATTERNS = [(1, 0, 1, 1), (0, 1, 1, 1), (1, 1, 0, 1), (1, 1, 1, 0), (1, 0, 0, 0), (0, 1, 0, 0), (0, 0, 1, 0), (0, 0, 0, 1),
+                 (1, 1, 0, 0), (0, 0, 1, 1), (0, 0, 0, 0), (1, 1, 1, 1)]
+
+
 def minmax2d_cases(ctx):
     from pybaselines import Baseline2D
     prng = random.Random(ctx.seed + 53)
@@ -1143,15 +1151,38 @@ def minmax2d_cases(ctx):
         w = None if default_w else np.arange(10, 10 + m * n, dtype=float).reshape(m, n)
         form = k % 3
         fr = [frac_values(prng, prng.choice([m, n])) for _ in range(4)]
+        if k < 36:      # fixed cells: a zero in every position / every subset pattern of the fractions
+            pat = ZERO_PATTERNS[k % len(ZERO_PATTERNS)]
+            fr = [0.0 if pat[i] == 0 else [0.1, 0.25, 0.2, 0.34][i] for i in range(4)]
+            form = 2 if k % 3 != 1 else 1
         cf = fr[0] if form == 0 else ((fr[0], fr[1]) if form == 1 else tuple(fr))
         cw = 1001.0 if k % 5 == 0 else ((1001.0, 1003.0) if k % 5 == 1 else (1001.0, 1002.0, 1003.0, 1004.0))
         call = {'kind': 'minmax2d', 'shape': [m, n], 'layout': ['sorted', 'x-unsorted', 'z-unsorted', 'both-unsorted'][layout],
                 'default_weights': default_w, 'constrained_fraction': cf, 'constrained_weight': cw, 'seed': ctx.seed, 'k': k}
         fitter = Baseline2D(x[px], z[pz])
+        po = [1, (1, 2), 0, (2, 1)][(k // 3) % 4]
+        call['poly_order'] = po
+        recorded = []
+
+        def make(orig):
+            def rec(self, data=None, *args, **kwargs):
+                recorded.append((int(kwargs.get('poly_order', -1)), kwargs.get('weights')))
+                return orig(self, data, *args, **kwargs)
+            return rec
         with warnings.catch_warnings():
             warnings.simplefilter('ignore')
-            b, p = fitter.adaptive_minmax(y, poly_order=1, weights=w, constrained_fraction=cf, constrained_weight=cw,
-                                          method_kwargs={'max_iter': 2})
+            with Patched(Baseline2D, 'modpoly', make):
+                b, p = fitter.adaptive_minmax(y, poly_order=po, weights=w, constrained_fraction=cf, constrained_weight=cw,
+                                              method_kwargs={'max_iter': 2})
+        seq = []
+        for o, wt_ in recorded:
+            which = 'false' if wt_ is p['weights'] else ('true' if wt_ is p['constrained_weights'] else None)
+            seq.append(None if which is None else f'({o}, {which})')
+        if None in seq:
+            ctx.fail('minmax2d:fit-arrays', 'Baseline2D.adaptive_minmax: a fit received a weight array that is not one of the reported arrays', call)
+            continue
+        nrec = [len(v) for v in p['method_params'].values()]
+        pol = f'(inl {po})' if not isinstance(po, tuple) else f'(inr ({po[0]}, {po[1]}))'
         so = fitter._sort_order
         io = fitter._inverted_order
         if so is None:
@@ -1168,24 +1199,32 @@ def minmax2d_cases(ctx):
         ctx.case(('minmax2d', m, n, layout, default_w, cf, cw), nontrivial=any(f > 0 for f in fr[:1 if form == 0 else 2 if form == 1 else 4]),
                  kind=f'minmax2d:{call["layout"]}')
         lits.append((f'({m}, {n}, {olit(ox)}, {olit(oz)}, {rc_lit(cf, hexf)}, {rc_lit(cw, lambda v: str(int(v)))}, {win}, '
-                     f'{zlist(p["weights"].ravel())}, {zlist(p["constrained_weights"].ravel())})', call))
+                     f'{zlist(p["weights"].ravel())}, {zlist(p["constrained_weights"].ravel())}, {pol}, [{"; ".join(seq)}], '
+                     f'{zlist(list(p["poly_order"]) + nrec)})', call))
 
     def on_bad(call):
         ctx.fail(f'minmax2d:weights:{call["layout"]}:{"default" if call["default_weights"] else "given"}',
                  f'Baseline2D.adaptive_minmax(shape={call["shape"]}, {call["layout"]}, constrained_fraction={call["constrained_fraction"]}, '
                  f'constrained_weight={call["constrained_weight"]}): reported weights / constrained_weights differ from ceil(M*f) rows and '
-                 'ceil(N*g) columns at each edge in x / z order (last columns > last rows > first columns > first rows)', call)
+                 'ceil(N*g) columns at each edge in x / z order (last columns > last rows > first columns > first rows), or the fits '
+                 'performed are not the four (order, array) pairs (p0,w),(p0,cw),(p1,w),(p1,cw) with one method_params entry each', call)
 
     if lits:
         ctx.sample({'kind': 'minmax2d-case', 'coq_literal': lits[3][0][:400], 'call': lits[3][1]})
-    ctype = 'Z * Z * option ((Z -> Z) * (Z -> Z)) * option ((Z -> Z) * (Z -> Z)) * rc float * rc Z * list Z * list Z * list Z'
+    ctype = ('Z * Z * option ((Z -> Z) * (Z -> Z)) * option ((Z -> Z) * (Z -> Z)) * rc float * rc Z * list Z * list Z * list Z * '
+             '(Z + Z * Z) * list (Z * bool) * list Z')
     run_cases(ctx, 'correspondence:adaptive_minmax-2d-weights', 'minmax2d', ctype,
               f"""Definition ok (c : {ctype}) : bool :=
-  let '(m, n, ox, oz, cf, cw, w, wobs, cobs) := c in
+  let '(m, n, ox, oz, cf, cw, w, wobs, cobs, po, seq, misc) := c in
   let '(f0, f1, f2, f3) := fill4 cf in let '(w0, w1, w2, w3) := fill4 cw in
   let r := minmax2d_weights m n ox oz (edge_count Num_F m f0) (edge_count Num_F m f1) (edge_count Num_F n f2)
              (edge_count Num_F n f3) w0 w1 w2 w3 (of_list2 0 n w) in
-  zl_eqb (to_list2 m n (fst r)) wobs && zl_eqb (to_list2 m n (snd r)) cobs.""", lits, on_bad)
+  let fs := fit_sequence (poly_orders po) in
+  zl_eqb (to_list2 m n (fst r)) wobs && zl_eqb (to_list2 m n (snd r)) cobs &&
+  zl_eqb (map fst fs) (map fst seq) && bl_eqb (map snd fs) (map snd seq) &&
+  (* reported orders, and every method_params list has one entry per fit of the sequence *)
+  zl_eqb (firstn 2 misc) [fst (poly_orders po); snd (poly_orders po)] &&
+  forallb (fun v => v =? Z.of_nat (List.length fs)) (skipn 2 misc).""", lits, on_bad)
 
 
 # ------------------------------------------------------------------ F. the lam grid of optimize_extended_range
@@ -1769,6 +1808,139 @@ def oracle_name_case(ctx, budget):
     return count
 
 
+# ------------------------------------------------------------------ oracle 6: enumerated option grids, independent recomposition
+def table2_orders(ratio):
+    """Table 2 of Cao et al. as documented for adaptive_minmax(poly_order=None)."""
+    for bound, orders in ((0.2, (1, 2)), (0.75, (2, 3)), (8.5, (3, 4)), (55, (4, 5)), (240, (5, 6)), (517, (6, 7))):
+        if ratio < bound:
+            return orders
+    return (6, 8)
+
+
+def oracle_option_grid(ctx, budget):
+    from pybaselines import Baseline, Baseline2D
+    rng = np.random.default_rng(ctx.seed + 211)
+    count = 0
+    f = [0.1, 0.25, 0.2, 0.34]
+    fr1 = [0.0, 0.1, 1.0, (0.1, 0.0), (0.0, 0.1), (0.0, 0.0), (0.3, 0.05), (1.0, 0.0), (0.0, 1.0)]
+    fr2 = [0.0, 0.1, (0.1, 0.0), (0.0, 0.1), (0.2, 0.3)] + [tuple(f[i] if pat[i] else 0.0 for i in range(4)) for pat in ZERO_PATTERNS]
+    cw1 = [1e5, 50.0, (50.0, 70.0), (1.0, 1e3)]
+    cw2 = [1e5, 50.0, (50.0, 70.0), (50.0, 60.0, 70.0, 80.0), (1e3, 1.0, 1.0, 1e3)]
+    pos = [None, 2, (1, 3), None, 0, (3, 1)]
+    ests = [2, 1, 3]
+    meths = [('modpoly', {}), ('imodpoly', {}), ('modpoly', {'mask_initial_peaks': True}), ('imodpoly', {'num_std': 2.0})]
+    shapes = [(7, 12), (12, 7), (9, 9), (5, 14)]
+    with warnings.catch_warnings():
+        warnings.simplefilter('ignore')
+        for two_d in (False, True):
+            fracs = fr2 if two_d else fr1
+            passes = 2 if budget == 1 else 4
+            for rep in range(passes):
+                for ci, cf in enumerate(fracs):
+                    i = ci + 5 * rep          # the other options cycle with different periods: every value meets every fraction cell
+                    cw = (cw2 if two_d else cw1)[(i + rep) % (5 if two_d else 4)]
+                    po = pos[(i + 2 * rep) % 6]
+                    est = ests[(i + rep) % 3]
+                    meth, mkw = meths[(i + rep) % 4]
+                    have_w = (i + rep) % 3 == 0
+                    layout = (i + rep) % 4
+                    if two_d:
+                        m_, n_ = shapes[(i + rep) % 4]
+                        xs, zs = np.linspace(-5, 5, m_), np.linspace(0, 20, n_)
+                        px = rng.permutation(m_) if layout in (1, 3) else np.arange(m_)
+                        pz = rng.permutation(n_) if layout in (2, 3) else np.arange(n_)
+                        X, Z = np.meshgrid(xs[px], zs[pz], indexing='ij')
+                        y = (3 + 0.4 * X - 0.05 * Z + 0.03 * X**2 + 0.01 * X * Z + 6 * np.exp(-0.5 * ((X - 1) / 0.8)**2 - 0.5 * ((Z - 9) / 1.5)**2)
+                             + rng.normal(0, 0.02, X.shape))
+                        mk = lambda: Baseline2D(xs[px], zs[pz])   # noqa
+                        w = rng.uniform(0.5, 1.5, y.shape) if have_w else None
+                        mkw = dict(mkw, max_iter=15)
+                    else:
+                        n_ = [40, 57, 31][(i + rep) % 3]
+                        xs = np.linspace(0, 100, n_) + (np.arange(n_) % 3) * 0.1
+                        perm = rng.permutation(n_) if layout % 2 else np.arange(n_)
+                        x = xs[perm]
+                        y = M.make_y(rng, xs)[perm]
+                        mk = lambda: Baseline(x)   # noqa
+                        w = rng.uniform(0.5, 1.5, n_) if have_w else None
+                    call = {'kind': 'oracle6-minmax', 'two_d': two_d, 'constrained_fraction': cf, 'constrained_weight': cw, 'poly_order': po,
+                            'estimation_poly_order': est, 'method': meth, 'method_kwargs': dict(mkw), 'user_weights': have_w,
+                            'shape': list(np.shape(y)), 'layout': layout, 'seed': ctx.seed, 'cell': [ci, rep]}
+                    key = f'minmax{"2d" if two_d else ""}:{meth}:option-grid'
+                    what = (f'{"Baseline2D" if two_d else "Baseline"}.adaptive_minmax(shape={list(np.shape(y))}, method={meth!r}, poly_order={po}, '
+                            f'estimation_poly_order={est}, constrained_fraction={cf}, constrained_weight={cw}, method_kwargs={mkw}, '
+                            f'{"user" if have_w else "default"} weights)')
+                    try:
+                        b, p = mk().adaptive_minmax(y, poly_order=po, method=meth, weights=None if w is None else w.copy(),
+                                                    constrained_fraction=cf, constrained_weight=cw, estimation_poly_order=est,
+                                                    method_kwargs=dict(mkw))
+                    except Exception as exc:  # noqa
+                        ctx.fail(key + ':raises', f'{what} raised {type(exc).__name__}: {exc}', call)
+                        continue
+                    count += 1
+                    ctx.case(('oracle6-minmax', two_d, ci, rep), nontrivial=True, kind=f'oracle6:minmax{"2d" if two_d else "1d"}')
+                    direct = lambda o, ww: getattr(mk(), meth)(y, poly_order=int(o), weights=np.array(ww, copy=True), **mkw)[0]   # noqa
+                    fits = [direct(o, ww) for o in p['poly_order'] for ww in (p['weights'], p['constrained_weights'])]
+                    expect = np.maximum.reduce(fits)
+                    nfits = sorted({len(v) for v in p['method_params'].values()})
+                    if not same(expect, b):
+                        ctx.fail(key + ':recomposition', f'{what} is not the point-wise maximum of the four fits defined by the reported poly '
+                                 f'orders and weight arrays (max abs diff {np.abs(expect - b).max():.3g}; fits recorded in method_params: {nfits})', call)
+                    elif nfits != [4]:
+                        ctx.fail(key + ':method-params-count', f'{what}: method_params lists hold {nfits} entries instead of one per fit (4)', call)
+                    if po is None:
+                        base = getattr(mk(), meth)(y, poly_order=est, weights=np.array(p['weights'], copy=True), **mkw)[0]
+                        sig = y - base
+                        want = table2_orders((base.max() - base.min()) / (sig.max() - sig.min()))
+                    else:
+                        want = (po, po + 1) if not isinstance(po, tuple) else po
+                    if tuple(int(v) for v in p['poly_order']) != tuple(want):
+                        ctx.fail(key + ':orders', f'{what}: reported poly_order {list(p["poly_order"])} instead of {list(want)} (the documented '
+                                 'pair / Table-2 selection from the estimation fit)', call)
+                    if w is not None and not same(p['weights'], w):
+                        ctx.fail(key + ':weights', f'{what}: the reported plain weights are not the caller\'s', call)
+        # ---- individual_axes: the documented sequential composition of 1-D fits along the requested axes
+        grid = [((0, 1), 'asls', {'lam': 1e2}), ((1, 0), 'asls', {'lam': 1e2}), ((0,), 'modpoly', {'poly_order': 2}), ((1,), 'arpls', {'lam': 1e2}),
+                ((1, 0), 'modpoly', [{'poly_order': 1}, {'poly_order': 3}]), (0, 'mor', {'half_window': 2}), ((0, 1), 'pspline_asls', {'num_knots': 5, 'lam': 10})]
+        for k, (axes, method, mkw) in enumerate(grid):
+            m_, n_ = [(8, 13), (13, 8), (10, 10)][k % 3]
+            xs, zs, ysort = M.make_z2d(rng, m_, n_)
+            layout = (k + ctx.seed) % 4
+            px = rng.permutation(m_) if layout in (1, 3) else np.arange(m_)
+            pz = rng.permutation(n_) if layout in (2, 3) else np.arange(n_)
+            x, z, y = xs[px], zs[pz], ysort[px][:, pz]
+            call = {'kind': 'oracle6-axes', 'axes': axes, 'method': method, 'method_kwargs': mkw, 'shape': [m_, n_], 'layout': layout, 'seed': ctx.seed}
+            try:
+                b, p = Baseline2D(x, z).individual_axes(y, axes=axes, method=method, method_kwargs=mkw)
+            except Exception as exc:  # noqa
+                ctx.fail(f'individual_axes:{method}:raises', f'individual_axes(axes={axes}, method={method!r}) raised {type(exc).__name__}: {exc}', call)
+                continue
+            count += 1
+            ctx.case(('oracle6-axes', k), nontrivial=True, kind='oracle6:individual_axes')
+            axl = [axes] if isinstance(axes, int) else list(axes)
+            kwl = [mkw] * len(axl) if isinstance(mkw, dict) else mkw
+            total = np.zeros((m_, n_))
+            parts = []
+            for axis, kw_ in zip(axl, kwl):
+                resid = y - total
+                part = np.empty((m_, n_))
+                if axis == 0:
+                    for j in range(n_):
+                        part[:, j] = getattr(Baseline(x), method)(resid[:, j], **kw_)[0]
+                else:
+                    for i_ in range(m_):
+                        part[i_, :] = getattr(Baseline(z), method)(resid[i_, :], **kw_)[0]
+                parts.append(part)
+                total = total + part
+            names = ['rows', 'columns']
+            ok_parts = all(same(p[f'baseline_{names[a]}'], part) for a, part in zip(axl, parts))
+            if not same(b, total) or not ok_parts:
+                ctx.fail(f'individual_axes:{method}:recomposition', f'Baseline2D.individual_axes(axes={axes}, method={method!r}, shape=({m_}, {n_})) '
+                         f'is not the sum of the 1-D {method} fits along the requested axes, each applied to the data minus the previous partial '
+                         f'baselines (max abs diff {np.abs(b - total).max():.3g})', call)
+    return count
+
+
 def run(ctx):
     ctx.rule = ('collab trace: every accepted wrapped method (1-D 28, 2-D 20) x average_dataset x {real method with valid keys incl. '
                 'tol/max_iter/weights/alpha/tol_2/weights_as_mask, probe with a random key subset in random order}; '
@@ -1800,11 +1972,18 @@ def run(ctx):
     n += oracle_growth(ctx, budget)
     n += oracle_interfaces(ctx, budget)
     n += oracle_name_case(ctx, budget)
+    n += oracle_option_grid(ctx, budget)
     ctx.note(f'direct oracle: {n} recomposition comparisons on real methods, bit-exact (budget x{budget})')
     ctx.note('oracle 2: recomposition identities with non-default wrapped-method parameters per family (mask_initial_peaks, '
              'use_original, cost functions, threshold, diff_order, spline_degree, ...), sorted / unsorted x, with / without user weights; '
              'at the wrapped-call boundary every sub-call\'s array arguments are snapshotted on entry, must be unchanged on return, '
              'bit-identical across the four fits / step-2 calls / sweep and to the reported arrays; recomputation uses pristine copies')
+    ctx.note('oracle 6: FIXED enumerated option grid of adaptive_minmax, 1-D and 2-D: constrained_fraction scalar / pair / quadruple with a zero '
+             'in every position and every listed subset pattern, constrained_weight scalar / per-edge, poly_order None / int / pair, '
+             'estimation_poly_order 1-3, modpoly / imodpoly with options, M != N, the four sort layouts, default / user weights; each cell is '
+             'recomposed independently (four direct fits from the reported orders and arrays, point-wise maximum, one method_params entry per '
+             'fit, documented order pair / Table-2 selection); the 2-D correspondence now also validates the sequence of the four fits; '
+             'individual_axes == sequential sum of 1-D fits along the requested axes (axes orders, per-axis kwargs, M != N)')
     ctx.note('name case: collab_pls call-trace validation also with the method name in upper / capitalised / alternating case (the model '
              'lower-cases the name as given); oracle 5: every accepted collab_pls method (1-D, 2-D) and the other optimizers\' method '
              'argument in another spelling must give bit-identical output and params to the lower-case call, average_alpha present '
@@ -1830,7 +2009,9 @@ def replay(rep):
     print('replay case:', case)
     ctx = Ctx(PROP, 'quick', case.get('seed', 0))
     kind = case.get('kind', '')
-    if kind.startswith('oracle5'):
+    if kind.startswith('oracle6'):
+        oracle_option_grid(ctx, 3)
+    elif kind.startswith('oracle5'):
         oracle_name_case(ctx, 3)
     elif kind.startswith('oracle4'):
         oracle_interfaces(ctx, 3)
